@@ -11,6 +11,8 @@
 -/
 import AriadneModel.Proofs.ResultLeaf
 import AriadneModel.Model.Triggers01
+import AriadneModel.Model.Marks
+import AriadneModel.Spec.Validate
 
 set_option linter.unusedVariables false
 
@@ -35,5 +37,165 @@ example : Exec.conforms exSchema true (.list (.nonNull (.named "Color"))) (.arr 
   decide
 example : LeafName exGenv "Color" := by
   refine ⟨Or.inr (Or.inr ?_), ?_⟩ <;> decide
+
+
+/-! ### The property at full strength, on the whole model pipeline
+
+`generate` (Model/ResultTypes) → classes; `Marks.applyMarks` → the document as sent; `Exec.respOK` →
+what a conformant server may answer for it; `Pyd.validate`/`dump` → what the generated models do
+with the answer. -/
+
+open Ariadne.Triggers01
+
+/-- pydantic environment of operation number `k`: its own classes plus every generated fragment class -/
+def pydEnvOf (inp : Input) (r : Run) (out : ModuleOut) : Pyd.Env :=
+  -- the fragments module holds the classes of every fragment that no OPERATION unpacked (package.py)
+  let unpacked := (okOuts r.ops).foldl (fun acc o => Util.setUnion acc o.st.unpacked) []
+  let fragClasses := r.frags.foldl (fun acc (n, x) => match x with
+    | .ok o => if unpacked.contains n then acc else acc ++ o.classes
+    | .error _ => acc) []
+  { classes := out.classes ++ fragClasses,
+    enums := (inp.env.schema.types.filter (·.kind == .enum)).map fun t => (t.name, t.values) }
+
+def execFuel : Nat := 1000
+
+/-- C01 for one operation of one input and one payload, as a Boolean:
+    generation succeeded and, IF `j` is an answer a conformant server can give for the sent document,
+    THEN the root model accepts it and dumps it back (up to member order). -/
+def claimB (inp : Input) (k : Nat) (j : J) : Bool :=
+  let r := run inp
+  match r.ops[k]?, inp.ops[k]? with
+  | some (.ok out), some o =>
+    match out.classes.head?, Validate.rootOf inp.env.schema o with
+    | some root, some rt =>
+      let marks := marksAfter (r.ops.take (k + 1))
+      let sentFrags := inp.env.frags.map (Marks.applyFrag marks)
+      let sent := Marks.applyOp marks o
+      !(Exec.respOK inp.env.schema sentFrags execFuel rt sent.sel j)
+      || (match Pyd.validate (pydEnvOf inp r out) execFuel (.cls root.name) j with
+          | .ok v => J.eqv (Pyd.dump v) j
+          | .error _ => false)
+    | _, _ => false
+  | some (.error _), some _ => false        -- generation refused / crashed on a valid operation
+  | _, _ => true                            -- no such operation
+
+def ValidInput (inp : Input) : Prop :=
+  Validate.validDoc inp.env.schema inp.env.frags inp.ops execFuel = true
+
+instance (inp : Input) : Decidable (ValidInput inp) := by unfold ValidInput; infer_instance
+
+/-- C01 at full strength (acceptance + serialising back; the attribute-exposure and
+    class-per-runtime-type clauses are consequences checked by the oracle). -/
+def C01_full : Prop := ∀ (inp : Input) (k : Nat) (j : J), ValidInput inp → claimB inp k j = true
+
+/-- C01 outside the finding regions (`Supported_01` = no trigger predicate of Model/Triggers01.lean holds). -/
+def C01_partial_statement : Prop :=
+  ∀ (inp : Input) (k : Nat) (j : J), ValidInput inp → Supported_01 inp → claimB inp k j = true
+
+/-! Witness of finding C01-F2: `query Q { me { id } me { friends { id } } }` -/
+
+def wSchema : Schema :=
+  { types := [
+      { name := "Query", kind := .object, fields := [{ name := "me", type := .named "User" }] },
+      { name := "User", kind := .object,
+        fields := [{ name := "id", type := .nonNull (.named "ID") },
+                   { name := "friends", type := .nonNull (.list (.nonNull (.named "User"))) }] }],
+    query := some "Query" }
+
+def wOp : Operation :=
+  { kind := .query, name := some "Q", sid := 1,
+    sel := [ .field none "me" [] 2 [.field none "id" [] 0 []],
+             .field none "me" [] 3 [.field none "friends" [] 4 [.field none "id" [] 0 []]] ] }
+
+def wInp : Input := { env := { schema := wSchema, frags := [] }, ops := [wOp] }
+
+def wResp : J :=
+  .obj [("me", .obj [("id", .str "1"), ("friends", .arr [.obj [("id", .str "2")]])])]
+
+theorem witness_valid : ValidInput wInp := by decide +kernel
+theorem witness_in_region : trigDupCompositeKey wInp = true := by decide +kernel
+theorem witness_conformant :
+    Exec.respOK wSchema [] execFuel "Query" wOp.sel wResp = true := by decide +kernel
+theorem witness_fails : claimB wInp 0 wResp = false := by decide +kernel
+
+/-- The property is false on the pinned tree (finding C01-F2; replayed on the real code by
+    corpus/C01/F2-duplicate-composite-key.json on every run). -/
+theorem C01_full_false : ¬ C01_full := by
+  intro h
+  have := h wInp 0 wResp witness_valid
+  rw [witness_fails] at this
+  exact absurd this (by decide)
+
+
+/-! Model-level witnesses of the other recorded findings (each is replayed on the REAL code from
+    corpus/C01/ on every run; here: the model reproduces the defect and the input lies in the trigger region). -/
+
+def w2Schema : Schema :=
+  { types := [
+      { name := "Query", kind := .object,
+        fields := [{ name := "me", type := .named "User" }, { name := "node", type := .named "Node" }] },
+      { name := "Node", kind := .interface, fields := [{ name := "id", type := .nonNull (.named "ID") }] },
+      { name := "Named", kind := .interface, fields := [{ name := "name", type := .named "String" }] },
+      { name := "User", kind := .object, interfaces := ["Node", "Named"],
+        fields := [{ name := "id", type := .nonNull (.named "ID") }, { name := "name", type := .named "String" },
+                   { name := "friends", type := .nonNull (.list (.nonNull (.named "User"))) },
+                   { name := "pet", type := .named "Node" }] },
+      { name := "Post", kind := .object, interfaces := ["Node"],
+        fields := [{ name := "id", type := .nonNull (.named "ID") }, { name := "title", type := .nonNull (.named "String") }] }],
+    query := some "Query" }
+
+def fld (name : String) (sid : Nat := 0) (sub : List Selection := []) : Selection := .field none name [] sid sub
+def inc : Directive := { name := "include", args := [("if", none)] }
+def mkQ (sel : List Selection) : Operation := { kind := .query, name := some "Q", sid := 1, sel := sel }
+def mkInp (frags : List Fragment) (sel : List Selection) : Input :=
+  { env := { schema := w2Schema, frags := frags }, ops := [mkQ sel] }
+def mkF (name on : String) (sid : Nat) (sel : List Selection) : Fragment := { name := name, on := on, sid := sid, sel := sel }
+
+/-- F3: `query Q($f: Boolean!) { me { id ... on User @include(if: $f) { friends { id } } } }`, answered with `$f = false` -/
+def w3 : Input := mkInp []
+  ([fld "me" 2 [fld "id", .inline (some "User") [inc] 3 [fld "friends" 4 [fld "id"]]]])
+def w3Resp : J := .obj [("me", .obj [("id", .str "1")])]
+theorem F3_in_region : trigDirOnFragment w3 = true := by decide +kernel
+theorem F3_fails_in_model : ValidInput w3 ∧ claimB w3 0 w3Resp = false := by decide +kernel
+
+/-- F4: `query Q { me { ...UF } }  fragment UF on User { id pet { id } }` — the fragment is inherited, its text is sent
+    without `__typename`, its class demands it -/
+def w4 : Input := mkInp [mkF "UF" "User" 5 [fld "id", fld "pet" 6 [fld "id"]]]
+  ([fld "me" 2 [.spread "UF" []]])
+def w4Resp : J := .obj [("me", .obj [("id", .str "1"), ("pet", .obj [("id", .str "2")])])]
+theorem F4_in_region : trigMixinAbstractField w4 (run w4) = true := by decide +kernel
+theorem F4_fails_in_model : ValidInput w4 ∧ claimB w4 0 w4Resp = false := by decide +kernel
+
+/-- F5: `query Q { node { ... on Named { name } } }` — the inline fragment on the other interface is ignored -/
+def w5 : Input := mkInp []
+  ([fld "node" 2 [.inline (some "Named") [] 3 [fld "name"]]])
+def w5Resp : J := .obj [("node", .obj [("__typename", .str "User"), ("name", .str "n")])]
+theorem F5_in_region : trigDroppedSelection w5.env.schema (run w5) = true := by decide +kernel
+theorem F5_fails_in_model : ValidInput w5 ∧ claimB w5 0 w5Resp = false := by decide +kernel
+
+/-- F7: `query Q { me { ... { id } } }` — AttributeError in the generator -/
+def w7 : Input := mkInp []
+  ([fld "me" 2 [.inline none [] 3 [fld "id"]]])
+theorem F7_in_region : trigInlineNoType w7 = true := by decide +kernel
+theorem F7_fails_in_model : ValidInput w7 ∧ claimB w7 0 (.obj [("me", .null)]) = false := by decide +kernel
+
+/-- F9 (= C08-F1): `query Q { node { ...NF ... on User { name } } }  fragment NF on Node { id }` — `NF` is a base of the
+    interface class and unpacked into the `User` class, hence excluded from the fragments module -/
+def w9 : Input := mkInp [mkF "NF" "Node" 5 [fld "id"]]
+  ([fld "node" 2 [.spread "NF" [], .inline (some "User") [] 3 [fld "name"]]])
+def w9Resp : J := .obj [("node", .obj [("__typename", .str "Post"), ("id", .str "7")])]
+theorem F9_in_region : trigMixinAndUnpacked (run w9) = true := by decide +kernel
+theorem F9_fails_in_model : ValidInput w9 ∧ claimB w9 0 w9Resp = false := by decide +kernel
+
+/-! Non-vacuity of the partial statement: a supported input on which the claim holds for a non-trivial answer
+    (interface position, inline fragments on two members, nullable list of non-null objects). -/
+def wOk : Input := mkInp []
+  ([fld "node" 2 [fld "id", .inline (some "User") [] 3 [fld "name", fld "friends" 4 [fld "id"]],
+                                  .inline (some "Post") [] 5 [fld "title"]]])
+def wOkResp : J := .obj [("node", .obj [("__typename", .str "User"), ("id", .str "1"), ("name", .null),
+  ("friends", .arr [.obj [("id", .str "2")], .obj [("id", .str "3")]])])]
+example : ValidInput wOk ∧ Supported_01 wOk ∧ claimB wOk 0 wOkResp = true
+    ∧ Exec.respOK w2Schema [] execFuel "Query" (Marks.applySels (marksAfter (run wOk).ops) ((wOk.ops.map (·.sel)).flatten)) wOkResp = true := by
+  decide +kernel
 
 end Ariadne.C01
